@@ -17,6 +17,16 @@ func (failingCreds) GetRequestMetadata(ctx context.Context, uri ...string) (map[
 }
 func (failingCreds) RequireTransportSecurity() bool { return false }
 
+// yieldingCreds succeed, but like real token sources they take a while: there is a scheduling
+// point inside GetRequestMetadata, so other goroutines can start RPCs in the meantime.
+type yieldingCreds struct{}
+
+func (yieldingCreds) GetRequestMetadata(ctx context.Context, uri ...string) (map[string]string, error) {
+	verifrt.Yield("app", "creds:get", nil, nil)
+	return map[string]string{"authorization": "tok"}, nil
+}
+func (yieldingCreds) RequireTransportSecurity() bool { return false }
+
 // idsOracle: every started RPC results in at most one invocation of exactly the named
 // handler, exactly one when the call ran to completion; no handler runs twice.
 func idsOracle(w *World, x *Exec, wls []Workload) []Violation {
@@ -81,6 +91,10 @@ func c08Scenarios(tier string) []*Scenario {
 		wl.Call.Creds = failingCreds{}
 		return wl
 	}
+	slow := func(wl Workload) Workload {
+		wl.Call.Creds = yieldingCreds{}
+		return wl
+	}
 	precancelled := func(id string, tag byte) Workload {
 		wl := b(id, tag)
 		wl.Call.PreCancel = true
@@ -94,6 +108,9 @@ func c08Scenarios(tier string) []*Scenario {
 		{"2x2:UB+SSU", [][]Workload{{u("a1", 1), b("a2", 2)}, {ss("b1", 3), u("b2", 4)}}},
 		{"3x1:U+B+SS", [][]Workload{{u("a1", 1)}, {b("b1", 2)}, {ss("c1", 3)}}},
 		{"3x1:U+fail+B", [][]Workload{{u("a1", 1)}, {failing("b1", 2)}, {b("c1", 3)}}},
+		{"2x1:Ucreds+U", [][]Workload{{slow(u("a1", 1))}, {u("b1", 2)}}},
+		{"2x1:Bcreds+Bcreds", [][]Workload{{slow(b("a1", 1))}, {slow(b("b1", 2))}}},
+		{"2x2:UcredsU+BSScreds", [][]Workload{{slow(u("a1", 1)), u("a2", 2)}, {b("b1", 3), slow(ss("b2", 4))}}},
 	}
 	// raw client id histories
 	ids := []int64{-1, 0, 1, 2, 5}
@@ -187,7 +204,7 @@ func c08Scenarios(tier string) []*Scenario {
 						vs = append(vs, idsOracle(w, x, all)...)
 						if !withClose {
 							for _, wl := range all {
-								if wl.Call.Creds != nil || wl.Call.PreCancel {
+								if _, fails := wl.Call.Creds.(failingCreds); fails || wl.Call.PreCancel {
 									continue
 								}
 								vs = append(vs, completeOK(w, "C08", wl)...)
@@ -204,7 +221,7 @@ func c08Scenarios(tier string) []*Scenario {
 
 func init() {
 	register(&PropDef{ID: "C08", Level: "model_checking",
-		Rule:      "(concurrent creation) 2-3 goroutines starting 1-2 RPCs each (mixed shapes, one failing in its credentials, one whose context is already cancelled when it starts, optionally racing a channel close), forward and reverse, with every lock/atomic/channel operation of stream creation, id allocation and the thread-safe send wrappers as a scheduling point, all schedules with <= 1 deviation (<= 2 for the two-goroutine programs) at quick, one more at thorough; oracle: ids strictly increasing on the wire, each id starts with new_stream (protocol monitor), each RPC gets at most one invocation of exactly its handler and exactly one when it completes; (raw histories) every sequence of length <= 3 (quick) / 4 (thorough) over {new_stream, request, half_close, cancel} x ids {-1,0,1,2,5} against the reference id rules (id not greater than all seen => tunnel ends with an error; frames for finished ids ignored)",
+		Rule:      "(concurrent creation) 2-3 goroutines starting 1-2 RPCs each (mixed shapes, one failing in its credentials, some with per-RPC credentials that yield inside GetRequestMetadata, one whose context is already cancelled when it starts, optionally racing a channel close), forward and reverse, with every lock/atomic/channel operation of stream creation, id allocation and the thread-safe send wrappers as a scheduling point, all schedules with <= 1 deviation (<= 2 for the two-goroutine programs) at quick, one more at thorough; oracle: ids strictly increasing on the wire, each id starts with new_stream (protocol monitor), each RPC gets at most one invocation of exactly its handler and exactly one when it completes; (raw histories) every sequence of length <= 3 (quick) / 4 (thorough) over {new_stream, request, half_close, cancel} x ids {-1,0,1,2,5} against the reference id rules (id not greater than all seen => tunnel ends with an error; frames for finished ids ignored)",
 		Globals:   []func(*Scenario, *World, *Exec) []Violation{ProtoMonitor},
 		Scenarios: c08Scenarios})
 }
